@@ -236,7 +236,7 @@ func runC11(c *Ctx) {
 		if pc == nil {
 			continue
 		}
-		P := c.Path(pc, nil) + "#0"
+		P := pc.P(c) + "#0"
 		chk := invokeOf("ValidateDelta(op.Delta)", "ValidateDelta", pathIs(P+".Delta"))
 		ok, w, n := c.Guard(f, nil, chk, func(in ssa.Instruction) bool {
 			cl, isC := in.(*ssa.Call)
